@@ -74,3 +74,150 @@ Proof.
   exists (ustack_init [[97%N; NL]] 1). exists [[97%N; NL]]. unfold Inv, bnd. cbn. repeat split; auto.
   constructor; [reflexivity|constructor].
 Qed.
+
+(* ------------------------------------------------------------------------------------------------------------------- *)
+(* Undo steps never span a buffer switch, for the edit-log model of lbuf.c (UndoDefs.lbuf): the predicates of
+   BufsSteps.step_laws instantiated with the real log (records with seq, undo cursor, useq), and -- through the refinement R
+   of C04 -- the corollary: a buffer whose step is closed takes an effective change, any further changes, and ONE undo:
+   text and dirty flag are what they were before. *)
+From NV Require Import BufsSteps.
+Local Open Scope nat_scope.
+
+Definition ulb_ok (l : UndoDefs.lbuf) : Prop :=
+  hist_u l <= length (hist l) /\ Forall (fun o => (seq o <= useq l)%Z) (hist l).
+Definition ulb_closed (l : UndoDefs.lbuf) : Prop :=
+  hist_u l <= length (hist l) /\ Forall (fun o => (seq o < useq l)%Z) (hist l).
+
+Lemma Forall_firstn_u {A} (P : A -> Prop) (l : list A) : forall n, Forall P l -> Forall P (firstn n l).
+Proof. induction l; intros [|n] H; cbn; auto. inversion H; subst. constructor; auto. Qed.
+
+Lemma ulb_edit_ok l buf b e : ulb_ok l -> ulb_ok (UndoDefs.lbuf_edit l buf b e).
+Proof.
+  intros [A B]. unfold UndoDefs.lbuf_edit. destruct (_ && _); [split; auto|].
+  unfold lbuf_replace, set_ln, lbuf_opt, ulb_ok. cbn [hist hist_u useq]. split.
+  - rewrite app_length, firstn_length. cbn. lia.
+  - apply Forall_app. split; [apply Forall_firstn_u, B|]. constructor; [cbn; lia|constructor].
+Qed.
+Lemma ulb_undo_loop_ok q : forall fuel l, ulb_ok l -> ulb_ok (UndoDefs.undo_loop fuel q l).
+Proof.
+  induction fuel as [|f IH]; intros l H; cbn [UndoDefs.undo_loop]; auto. destruct (_ && _); auto. apply IH.
+  destruct H as [A B]. unfold undo1, lbuf_replace, set_ln, set_hu, ulb_ok. cbn [hist hist_u useq]. split; auto. lia.
+Qed.
+Lemma ulb_redo_loop_ok q : forall fuel l, ulb_ok l -> ulb_ok (UndoDefs.redo_loop fuel q l).
+Proof.
+  induction fuel as [|f IH]; intros l H; cbn [UndoDefs.redo_loop]; auto. destruct (Nat.ltb (hist_u l) (length (hist l))) eqn:E; cbn [andb]; auto.
+  destruct (Z.eqb _ _); auto. apply IH. apply Nat.ltb_lt in E.
+  destruct H as [A B]. unfold redo1, lbuf_replace, set_ln, set_hu, ulb_ok. cbn [hist hist_u useq]. split; auto.
+Qed.
+Lemma ulb_run_op_ok l o : ulb_ok l -> ulb_ok (fst (run_op l o)).
+Proof.
+  intro H. destruct o; cbn [run_op fst].
+  - apply ulb_edit_ok, H.
+  - destruct H as [A B]. split; cbn; auto. eapply Forall_impl; [|exact B]. cbn. intros; lia.
+  - unfold lbuf_undo. destruct (Nat.eqb (hist_u l) 0); cbn [fst]; auto. apply ulb_undo_loop_ok, H.
+  - unfold lbuf_redo. destruct (Nat.eqb (hist_u l) (length (hist l))); cbn [fst]; auto. apply ulb_redo_loop_ok, H.
+Qed.
+Lemma ulb_run_ops_ok : forall ops l, ulb_ok l -> ulb_ok (run_ops l ops).
+Proof. induction ops as [|o r IH]; intros l H; cbn [run_ops]; auto. apply IH, ulb_run_op_ok, H. Qed.
+
+Theorem undo_step_laws : step_laws undo_ops ulb_ok ulb_closed.
+Proof.
+  constructor.
+  - intros l [A B]. split; auto. eapply Forall_impl; [|exact B]. cbn. intros; lia.
+  - split; cbn; auto.
+  - intros l [A B]. split; cbn; auto. eapply Forall_impl; [|exact B]. cbn. intros; lia.
+  - intros c l H. cbn. apply ulb_edit_ok, H.
+  - intros cl l [A B]. cbn. unfold UndoDefs.lbuf_saved. destruct cl; split; cbn; auto. eapply Forall_impl; [|exact B]. cbn. intros; lia.
+  - intros o l v H. cbn. apply ulb_run_ops_ok, H.
+Qed.
+Print Assumptions undo_step_laws.
+
+(* every moment of every session over the edit-log model: no open step in the background *)
+Theorem undo_no_open_step_in_background files argv (ls : list (list (BufsDefs.cmd Uop))) (cs : list (BufsDefs.cmd Uop)) j (b : ubuf) :
+  let s := fst (exec_all undo_ops (run_lines undo_ops (fst (ex_init undo_ops files argv)) ls) cs) in
+  1 <= j -> nth_error (bufs s) j = Some (Some b) -> ulb_closed (b_lb b).
+Proof.
+  cbn zeta. intros Hj E.
+  exact (background_closed ulb_ok ulb_closed _ j b (steps_reachable undo_ops ulb_ok ulb_closed undo_step_laws files argv ls cs) Hj E).
+Qed.
+Print Assumptions undo_no_open_step_in_background.
+
+(* the stack machine of C04 *)
+Definition sp_closed (sp : ustack) : Prop := match past sp with (q, _) :: _ => (q < cmdno sp)%Z | [] => True end.
+Definition is_edit (o : op) : Prop := match o with Edit _ _ _ => True | _ => False end.
+
+Lemma spec_ops_app a : forall sp b, spec_ops sp (a ++ b) = spec_ops (spec_ops sp a) b.
+Proof. induction a as [|o a IH]; intros sp b; cbn [spec_ops app]; auto. Qed.
+Lemma run_ops_app a : forall l b, run_ops l (a ++ b) = run_ops (run_ops l a) b.
+Proof. induction a as [|o a IH]; intros l b; cbn [run_ops app]; auto. Qed.
+
+Lemma spec_first sp buf b e : sp_closed sp -> edit_noop (cur sp) buf b e = false ->
+  let sp1 := fst (spec_op sp (Edit buf b e)) in past sp1 = (cmdno sp, cur sp) :: past sp /\ cmdno sp1 = cmdno sp.
+Proof.
+  intros C N. cbn [spec_op]. rewrite N. cbn. split; auto. unfold push_past, sp_closed in *. destruct (past sp) as [|[q t] r]; auto.
+  destruct (Z.eqb_spec q (cmdno sp)); [lia|reflexivity].
+Qed.
+Lemma spec_more p0 q0 t0 : forall es, Forall is_edit es -> forall sp, past sp = (q0, t0) :: p0 -> cmdno sp = q0 ->
+  past (spec_ops sp es) = (q0, t0) :: p0 /\ cmdno (spec_ops sp es) = q0.
+Proof.
+  induction es as [|o es IH]; intros F sp P C; cbn [spec_ops]; auto. inversion F; subst. destruct o; try contradiction.
+  apply IH; auto.
+  - cbn [spec_op]. destruct (edit_noop _ _ _ _); cbn [fst past]; auto. unfold push_past. rewrite P, Z.eqb_refl. reflexivity.
+  - cbn [spec_op]. destruct (edit_noop _ _ _ _); cbn; auto.
+Qed.
+Theorem spec_one_undo sp buf b e es : sp_closed sp -> edit_noop (cur sp) buf b e = false -> Forall is_edit es ->
+  let sp' := spec_ops sp (Edit buf b e :: es ++ [Undo]) in cur sp' = cur sp /\ past sp' = past sp /\ cmdno sp' = cmdno sp.
+Proof.
+  intros C N F. cbn zeta.
+  change (spec_ops sp (Edit buf b e :: es ++ [Undo])) with (spec_ops (fst (spec_op sp (Edit buf b e))) (es ++ [Undo])).
+  pose proof (spec_first sp buf b e C N) as X. cbn zeta in X. destruct X as [P1 C1].
+  set (sp1 := fst (spec_op sp (Edit buf b e))) in *. clearbody sp1.
+  rewrite spec_ops_app. destruct (spec_more (past sp) (cmdno sp) (cur sp) es F sp1 P1 C1) as [P2 C2].
+  set (sp2 := spec_ops sp1 es) in *. clearbody sp2.
+  cbn [spec_ops spec_op]. rewrite P2. cbn. auto.
+Qed.
+
+Lemma R_closed l sp : R l sp -> ulb_closed l -> sp_closed sp.
+Proof.
+  intros (g0 & I & Bn & Cm & Cu & P & Fu) [A B]. unfold sp_closed. rewrite P. destruct (hist_u l) as [|u] eqn:E; [exact Logic.I|].
+  destruct (pastl_top (hist l) g0 (S u)) as (t & rest & T); [lia|]. rewrite T. rewrite Cm. replace (S u - 1) with u by lia.
+  unfold seq_at. rewrite Forall_forall in B. apply B. apply nth_In. lia.
+Qed.
+Lemma R_seq l sp : R l sp -> lbuf_seq l = match past sp with (q, _) :: _ => q | [] => useq_last l end.
+Proof.
+  intros (g0 & I & Bn & Cm & Cu & P & Fu). unfold lbuf_seq. rewrite P. destruct (hist_u l) as [|u] eqn:E; [reflexivity|].
+  destruct (pastl_top (hist l) g0 (S u)) as (t & rest & T); [lia|]. rewrite T. replace (S u - 1) with u by lia. reflexivity.
+Qed.
+Lemma undo_loop_ctrs q : forall fuel l, useq_zero (UndoDefs.undo_loop fuel q l) = useq_zero l /\ useq_last (UndoDefs.undo_loop fuel q l) = useq_last l.
+Proof.
+  induction fuel as [|f IH]; intro l; cbn [UndoDefs.undo_loop]; auto. destruct (_ && _); auto. destruct (IH (undo1 l)) as [A B]. rewrite A, B. auto.
+Qed.
+Lemma edit_undo_ctrs l o : is_edit o \/ o = Undo -> useq_zero (fst (run_op l o)) = useq_zero l /\ useq_last (fst (run_op l o)) = useq_last l.
+Proof.
+  intros [H| ->].
+  - destruct o; try contradiction. cbn [run_op fst]. unfold UndoDefs.lbuf_edit. destruct (_ && _); auto.
+  - cbn [run_op]. unfold lbuf_undo. destruct (Nat.eqb (hist_u l) 0); cbn [fst]; auto. apply undo_loop_ctrs.
+Qed.
+Lemma edit_undo_ops_ctrs : forall ops l, Forall (fun o => is_edit o \/ o = Undo) ops ->
+  useq_zero (run_ops l ops) = useq_zero l /\ useq_last (run_ops l ops) = useq_last l.
+Proof.
+  induction ops as [|o r IH]; intros l F; cbn [run_ops]; auto. inversion F; subst.
+  destruct (IH (fst (run_op l o)) H2) as [A B]. destruct (edit_undo_ctrs l o H1) as [C D]. rewrite A, B. auto.
+Qed.
+
+(* a buffer whose step is closed (any background buffer, or the one `:b !` enters): an effective change, any further
+   changes, ONE undo -- the text and the dirty flag are the ones before *)
+Theorem ulb_one_undo l sp buf b e es : R l sp -> ulb_closed l -> edit_noop (ln l) buf b e = false -> Forall is_edit es ->
+  let l' := run_ops l (Edit buf b e :: es ++ [Undo]) in
+  ln l' = ln l /\ modified_flag l' = modified_flag l /\ lbuf_seq l' = lbuf_seq l.
+Proof.
+  intros HR Hc N F. cbn zeta. set (ops := Edit buf b e :: es ++ [Undo]).
+  pose proof (R_ops l sp ops HR) as HR'. pose proof (R_closed l sp HR Hc) as Sc.
+  rewrite <- (R_cur l sp HR) in N. destruct (spec_one_undo sp buf b e es Sc N F) as (S1 & S2 & S3). fold ops in S1, S2, S3.
+  assert (Fo : Forall (fun o => is_edit o \/ o = Undo) ops).
+  { unfold ops. constructor; [left; exact I|]. apply Forall_app. split; [eapply Forall_impl; [|exact F]; cbn; auto|]. constructor; auto. }
+  destruct (edit_undo_ops_ctrs ops l Fo) as [Z1 Z2].
+  assert (Sq : lbuf_seq (run_ops l ops) = lbuf_seq l). { rewrite (R_seq _ _ HR'), (R_seq _ _ HR), S2, Z2. reflexivity. }
+  split; [rewrite <- (R_cur _ _ HR'), <- (R_cur _ _ HR); exact S1|]. split; [|exact Sq]. unfold modified_flag. rewrite Sq, Z1. reflexivity.
+Qed.
+Print Assumptions ulb_one_undo.
